@@ -1,7 +1,28 @@
-/* CBMC build only: gcc's type-generic isfinite() expands to __builtin_isfinite, for which CBMC has no model (it would be an
- * unconstrained function).  IEEE semantics: finite = neither infinite nor NaN.  Part of the environment model. */
+/* CBMC build only: models of floating-point library pieces for which CBMC has no (or no deterministic) model.
+ * IEEE semantics; part of the environment model.
+ *   __builtin_isfinite : gcc's type-generic isfinite(); finite = neither infinite nor NaN
+ *   roundf / round     : round half away from zero (C99), exact for |x| < 2^62 which covers every use in jls
+ */
 #ifndef REPLAY
 int __builtin_isfinite(double x) { return __CPROVER_isfinited(x); }
+float roundf(float x) {
+    if (x != x || x >= 4.0e18f || x <= -4.0e18f) { return x; }
+    long long t = (long long) x;                 /* truncation toward zero */
+    float f = (float) t;
+    float d = x - f;
+    if (d >= 0.5f) { return f + 1.0f; }
+    if (d <= -0.5f) { return f - 1.0f; }
+    return f;
+}
+double round(double x) {
+    if (x != x || x >= 4.0e18 || x <= -4.0e18) { return x; }
+    long long t = (long long) x;
+    double f = (double) t;
+    double d = x - f;
+    if (d >= 0.5) { return f + 1.0; }
+    if (d <= -0.5) { return f - 1.0; }
+    return f;
+}
 #else
 typedef int verif_fp_stub_unused;
 #endif
